@@ -4,6 +4,7 @@ import (
 	"context"
 	"fmt"
 	"sort"
+	"strconv"
 	"strings"
 	"time"
 
@@ -450,6 +451,28 @@ func (o *oracleAlias) after(r *hRun, step, res bson.D) error {
 		}
 		if !equalUpToFieldOrder(res, res2) {
 			return fmt.Errorf("the same read returned different values after the first result was overwritten: %s vs %s", show(res), show(res2))
+		}
+	}
+	if op == "bulkWrite" {
+		// the result describes this call only: every reported upserted id
+		// belongs to an upserting model of this call (a result object shared
+		// with earlier calls shows what the caller wrote into those)
+		if ups, ok := getD(res, "upsertedIDs").(bson.D); ok {
+			models := asA(getD(step, "models"))
+			for _, e := range ups {
+				i, cerr := strconv.Atoi(e.Key)
+				valid := cerr == nil && i >= 0 && i < len(models)
+				if valid {
+					md := asD(models[i])
+					valid = asB(getD(md, "upsert"))
+				}
+				if !valid {
+					return fmt.Errorf("BulkWrite reports the upserted id %s for operation %s, which is not an upserting operation of this call (%d operations)", show(e.Value), e.Key, len(models))
+				}
+			}
+			if n, ok := getD(res, "upserted").(int64); ok && int(n) != len(ups) {
+				return fmt.Errorf("BulkWrite reports UpsertedCount %d and %d upserted ids", n, len(ups))
+			}
 		}
 	}
 	for _, e := range res {
